@@ -3,7 +3,11 @@
    (i)   the SPEC: RFC-4180 as an *encoder relation made executable*: `encode_file d recs encs` writes a list of
          records with a per-field choice quoted/unquoted and a per-record choice LF/CRLF; `rfc4180 d bs` is the
          reference parser (a direct recursive-descent reading of the grammar, final record with or without
-         terminator).
+         terminator).  BLANK LINES (a line without any byte) are not records: RFC 4180 does not mention them (its
+         grammar would read one as a record of one empty field), GlareDB's documentation (docs/integrations/
+         file-formats/csv.md) is silent, and csv_core documents "Empty lines (that do not include other whitespace)
+         are ignored" (reader.rs, "differences from RFC 4180").  The spec follows the documented engine behaviour; a
+         record of one empty field can still be written as a quoted empty field.
    (ii)  csv_core 0.1.12 `Reader` (external crate, src/reader.rs) as configured by
          `DialectOptions::csv_core_reader` (delimiter, quote; defaults: Terminator::CRLF, quoting, double_quote,
          no escape, no comment): `transition_nfa` transcribed, the DFA is its epsilon closure exactly as
@@ -242,14 +246,21 @@ Definition decode_flush_old (d : dialect) (chunks : list (list N)) :=
 Definition decode_flush_carry (d : dialect) (chunks : list (list N)) :=
   decode_flush_from clear_completed_carry d st_init chunks.
 
-(* run_dfa: the whole input in one `decode` call and NO end-of-input signal: what ReadCsv::bind does with the
-   inference sample (and what the reader did before ddfbbbc21) *)
+(* run_dfa: the whole input in one `decode` call and NO end-of-input signal: what ReadCsv::bind does with an
+   inference sample that is a proper prefix of the file (and what the reader did before ddfbbbc21) *)
 Definition run_dfa (d : dialect) (bs : list N) : option (list (list (list N))) :=
   records_of (snd (decode d st_init bs)).
 (* run_reader: the reader with a read buffer at least as large as the file: one read, then Poll::Ready(0) ->
    `decode(&[])`, then everything is flushed *)
 Definition run_reader (d : dialect) (bs : list N) : option (list (list (list N))) :=
   records_of (snd (decode_eof (match bs with [] => st_init | _ => decode d st_init bs end))).
+
+(* run_sample: ReadCsv::bind / DialectOptions::infer_from_sample_with_eof on the inference sample: one `decode`
+   call, followed by the end-of-input signal iff the sample reached the end of the file (`eof`, read_csv.rs:
+   `n < INFER_BUF_SIZE`) *)
+Definition run_sample (d : dialect) (eof : bool) (bs : list N) : option (list (list (list N))) :=
+  let st := decode d st_init bs in
+  records_of (snd (if eof then decode_eof st else st)).
 
 (* ------------------------------------------------------------------ CsvReader::poll_pull, rows level *)
 (* Reading{skip_first}: every chunk is decoded; when num_records >= out_cap the decoded records (minus the header
@@ -316,8 +327,9 @@ Fixpoint enc_file (d : dialect) (recs : list (bool * list (bool * list N))) : li
   | (crlf, fs) :: rest => enc_record d fs ++ enc_term crlf ++ enc_file d rest
   end.
 
-(* an encoding is valid when bare fields are plain, every record has a field, and no record is the blank line
-   (one bare empty field): RFC 4180 reads a blank line as a record of one empty field, csv_core skips it *)
+(* an encoding is valid when bare fields are plain and every record has a field.  A record that is one bare empty
+   field is written as a blank line, which is not a record for the reader (see (i) above): `nonblank` are the
+   records a file holds. *)
 Definition field_ok (d : dialect) (qf : bool * list N) : bool := fst qf || plain d (snd qf).
 Definition blank (fs : list (bool * list N)) : bool :=
   match fs with [(false, [])] => true | _ => false end.
@@ -328,6 +340,8 @@ Definition dialect_ok (d : dialect) : bool :=
   && negb ((quote d =? CR)%N || (quote d =? LF)%N) && negb ((delim d =? CR)%N || (delim d =? LF)%N).
 Definition contents (recs : list (bool * list (bool * list N))) : list (list (list N)) :=
   map (fun r => map snd (snd r)) recs.
+Definition nonblank (recs : list (bool * list (bool * list N))) : list (bool * list (bool * list N)) :=
+  filter (fun r => negb (blank (snd r))) recs.
 
 (* the same with an optional last record WITHOUT terminator *)
 Definition enc_file_open (d : dialect) (recs : list (bool * list (bool * list N))) (last : option (list (bool * list N))) : list N :=
@@ -339,6 +353,9 @@ Definition contents_open (recs : list (bool * list (bool * list N))) (last : opt
    theorems only use it on encodings).  mode: 0 at field start, 1 in a bare field, 2 in a quoted field,
    3 after a quote inside a quoted field.  `cur` is the reversed current field, `fs` the reversed record. *)
 Inductive pmode := PStart | PBare | PQuoted | PQuoteSeen.
+(* at a line terminator: no byte since the previous terminator (a field start with no field before it) *)
+Definition blank_line (m : pmode) (fs : list (list N)) : bool :=
+  match m, fs with PStart, [] => true | _, _ => false end.
 Fixpoint rfc_go (d : dialect) (m : pmode) (cur : list N) (fs : list (list N)) (cr : bool) (bs : list N)
   : list (list (list N)) :=
   match bs with
@@ -361,8 +378,11 @@ Fixpoint rfc_go (d : dialect) (m : pmode) (cur : list N) (fs : list (list N)) (c
           else if (c =? delim d)%N then rfc_go d PStart [] (rev cur :: fs) false rest
           else if (c =? LF)%N then
             (if cr then rfc_go d PStart [] [] false rest   (* the LF of a CRLF *)
+             else if blank_line m fs then rfc_go d PStart [] [] false rest
              else rev (rev cur :: fs) :: rfc_go d PStart [] [] false rest)
-          else if (c =? CR)%N then rev (rev cur :: fs) :: rfc_go d PStart [] [] true rest
+          else if (c =? CR)%N then
+            (if blank_line m fs then rfc_go d PStart [] [] true rest
+             else rev (rev cur :: fs) :: rfc_go d PStart [] [] true rest)
           else rfc_go d PBare (c :: cur) fs false rest
       end
   end.
